@@ -127,7 +127,9 @@ func (e emitter) commonRenderedLine(ds DividerSet, cellStrs []WidthString, colAl
 		fields[len(fields)-1] = ds.Right
 	} else if ds.Right != "" {
 		fields = append(fields, ds.Right)
-	} else if ds.Inner != "" {
+	} else if ds.Inner != "" && len(e.colWidths) > 0 {
+		// drop the inner divider which followed the last column; with no
+		// columns at all there is none to drop
 		fields = fields[:len(fields)-1]
 	}
 	return strings.Join(fields, " ") + e.eol
